@@ -52,6 +52,13 @@ def mutations(doc):
                 yield "add-unknown-key", gp, set_at(doc, path, lambda c, k: c[k].__setitem__("x-unknown-key", 1))
         elif isinstance(val, (str, bool)) or (isinstance(val, int)):
             yield "scalar-to-list", gp, set_at(doc, path, lambda c, k: c.__setitem__(k, []))
+            if isinstance(val, str) and val:
+                # other spellings of a string: free-form strings stay acceptable to both sides, enumerated ones (bounds, tags) to neither
+                alt = {"C": "Copyable", "A": "Any", "E": "Eq"}.get(val)
+                if alt:
+                    yield "enum-member-name", gp, set_at(doc, path, lambda c, k, a=alt: c.__setitem__(k, a))
+                if val.swapcase() != val:
+                    yield "string-other-case", gp, set_at(doc, path, lambda c, k, a=val.swapcase(): c.__setitem__(k, a))
         if val is not None and parent_is_obj:
             yield "to-null", gp, set_at(doc, path, lambda c, k: c.__setitem__(k, None))
     yield "add-unknown-key", "", dict(doc, **{"x-unknown-key": 1})
